@@ -4,11 +4,13 @@ import copy
 import os
 import random
 
+import numpy as np
+
 import common
 import datagen
 import datatie
 
-EXTRA_TARGETS = ["Model/DataQ.vo"]
+EXTRA_TARGETS = ["Model/DataQ.vo", "Model/Lookup.vo"]
 GEN_PREFIXES = []
 ASSUMPTIONS = ["permutation checks use inputs without repeated coordinates (with repeats the first occurrence wins, by design)",
                "text-file row/column order is C09's part of this property"]
@@ -53,6 +55,12 @@ def _explore(out, tier, seed, facts, replay):
             continue
         ninp = len(ds["inputs"])
         sizes = c.get("sizes") or [1] * 13
+        # the coordinates the dataset reports are the values stored in the inputs (set arithmetic from the property text)
+        from p_c03 import expected_dims
+        et_, el_, es_ = expected_dims(ds)
+        (it_, il_, is_), _ = c["impl"]
+        if [float(x) for x in il_] != [float(x) for x in el_] or [float(x) for x in it_] != [float(x) for x in et_] or [float(x) for x in is_] != [float(x) for x in es_]:
+            out.violation("coordinates-differ", "the dataset reports times %r, lead times %r, locations %r; the inputs' common coordinates are %r, %r, %r" % (it_, il_, is_, et_, el_, es_), ds)
         g = rng.randrange(ninp)
         # (1) permute the dimension entries of one input
         if nodup(ds["inputs"][g]):
@@ -107,6 +115,44 @@ def _explore(out, tier, seed, facts, replay):
     #     orders, with different extra thresholds, or derive them from an ensemble)
     import probtie
     nf += probtie.run(out, rng, 8 if tier == "quick" else 80, "thresholds-by-value")
+    # (3b) PIT values of a variable with a discrete mass at x0 are randomised only in the cells whose OWN observation equals x0
+    #      (inputs list their entries in shuffled orders): everywhere else the PIT is the stored one
+    import verif.data
+    import verif.field
+    import verif.variable
+    for _ in range(10 if tier == "quick" else 100):
+        ds = datagen.gen_dataset(rng, options=False)
+        ds["cfg"].pop("clim", None)
+        if not all("pit" in s_["fields"] and "obs" in s_["fields"] for s_ in ds["inputs"]):
+            continue
+        try:
+            ins0 = [datagen.mem_input(s_, "in%d" % i_) for i_, s_ in enumerate(ds["inputs"])]
+            ins1 = [datagen.mem_input(s_, "in%d" % i_) for i_, s_ in enumerate(ds["inputs"])]
+            x0_ = rng.choice([0.0, 1.0, 2.5])
+            for i_ in ins1:
+                i_.variable = verif.variable.Variable("Precip", "mm", x0=x0_)
+            d0, d1 = verif.data.Data(ins0), verif.data.Data(ins1)
+            for k in range(len(ins0)):
+                o0 = np.asarray(d0.get_scores(verif.field.Obs(), k), float)
+                p0 = np.asarray(d0.get_scores(verif.field.Pit(), k), float)
+                p1 = np.asarray(d1.get_scores(verif.field.Pit(), k), float)
+                nf += 1
+                if p0.shape != p1.shape:
+                    out.violation("pit-mass-shape", "shapes differ", {"dataset": ds, "x0": x0_, "input": k})
+                    continue
+                valid = ~np.isnan(p0) & ~np.isnan(p1)
+                lo_b, hi_b = np.minimum(0.0, p0[valid]), np.maximum(0.0, p0[valid])       # pit * u with u in [0, 1] (generated PIT values may be negative)
+                unchanged_ok = np.all((p1[valid] == p0[valid]) | ((p1[valid] >= lo_b - 1e-12) & (p1[valid] <= hi_b + 1e-12)))
+                changed = valid & (p1 != p0)
+                # a changed cell must be one whose observation (at the same coordinates) equals x0
+                if not unchanged_ok or np.any(changed & ~(o0 == x0_) & ~np.isnan(o0)):
+                    bad_ = np.argwhere(changed & ~(o0 == x0_))[:3].tolist()
+                    out.violation("pit-mass-coordinates", "variable with x0 = %r, input %d: PIT values changed at cells %r whose observation is not x0 (PIT randomisation applied at another cell's coordinates)" % (x0_, k, bad_),
+                                  {"dataset": ds, "x0": x0_, "input": k})
+        except datagen.ImplExit:
+            continue
+        except Exception as e:
+            out.violation("pit-mass-exception", "Pit with x0 raised %r" % (e,), {"dataset": ds})
     # (4) the same through the text reader: rows in any order, interleaved by location, one row whose location metadata
     #     conflicts with the first row of that id (the reader warns once and keeps the first): every value is still stored
     #     at its own (time, lead time, id)
